@@ -4,14 +4,12 @@ from .common import ticks, b, BINDING_PARKS
 
 def project(log, executor_name="TimeoutExecutor"):
     worker = None
-    for e in log:
-        if e[1] == "spawn" and str(e[3]).startswith(executor_name):
-            worker = e[2]
-            break
     ev_name = None
     for e in log:
-        if e[0] == worker and e[1] == "wait":
-            ev_name = e[2]
+        if e[1] == "evnew":
+            ev_name = e[2]       # the wake-up event is the last Event created before the worker thread
+        if e[1] == "spawn" and str(e[3]).startswith(executor_name):
+            worker = e[2]
             break
     out = ["S timeout"]
     dmap = {}      # delegate future name -> k
@@ -35,7 +33,7 @@ def project(log, executor_name="TimeoutExecutor"):
                 out.append("E %d callCancel %d" % (t, fmap[e[3]]))
             elif e[2] == "shutdown":
                 in_shutdown.add(t)
-                out.append("E %d callShutdown" % t)
+                out.append("E %d callShutdown %s" % (t, b(e[3])))
         elif k == "ret":
             if e[2] == "submit":
                 fmap[e[3]] = pending_submit.pop(t)
